@@ -450,8 +450,11 @@ func (p *Pop) after() bool {
 				return false
 			}
 		}
-		p.aliasMonitor(op)
 	}
+	// the alias monitor only STEERS (in every mode): a chunk reachable from two owners without being flagged shared on
+	// both sides schedules an ordinary Remove through the unflagged owner as the next step; the verdict comes from the
+	// oracles of the mode, evaluated on all live bitmaps after that step
+	p.aliasMonitor(op)
 	if p.mode.Validity {
 		for i, bm := range p.live {
 			c.Eval(1)
